@@ -290,7 +290,7 @@ def _abstract_run(fn, name, val, roles, functions=None, _depth=0, free=None):
             raise AnalysisError(f"{name}: stuck at line {node.line}")
 
 
-@rule("C02.filters-agree", ["C02"],
+@rule("C02.filters-agree", ["C02", "C08", "C10"],
       "the legacy filter (_change_accepted) and the observe filter "
       "(ctrait_prevent_event) make complementary decisions on every "
       "abstract case")
